@@ -66,14 +66,21 @@ type c07Case struct {
 	// NilSec: the operation's empty security list is built in code: a non-nil pointer to a nil slice
 	NilSec bool      `json:"nilsec"`
 	Hist   []c07Step `json:"hist"`
+	// Opts: "skipdefaults" / "exclreadonly": an option the statement does not mention is set; "nil": no Options at all
+	Opts string `json:"opts"`
 }
 
 func c07Sec(reqs [][]string) []any {
 	out := []any{}
 	for _, r := range reqs {
 		m := map[string]any{}
-		for _, s := range r {
-			m[s] = []any{}
+		for _, s := range r { // an atom "A+r+w" is scheme A with the scopes r, w
+			f := strings.Split(s, "+")
+			scopes := []any{}
+			for _, sc := range f[1:] {
+				scopes = append(scopes, sc)
+			}
+			m[f[0]] = scopes
 		}
 		out = append(out, m)
 	}
@@ -88,6 +95,9 @@ func c07ParamJSON(ps []c07Param) []any {
 			sch = map[string]any{"type": "string", "pattern": "^x"}
 		}
 		m := map[string]any{"name": p.Name, "in": p.In, "schema": sch}
+		if p.In == "path" {
+			m["required"] = true
+		}
 		switch p.Kind {
 		case "reqint":
 			m["required"] = true
@@ -134,7 +144,7 @@ func c07Op(oparams []c07Param, sec c07SecList, bdecl string) map[string]any {
 
 // c07Load builds the document of one view (path item /t: path-level parameters, the POST operation, sibling operations
 // under other methods) and loads it through the real loader
-func c07Load(pparams []c07Param, ops map[string]any, docSec [][]string) (*openapi3.T, error) {
+func c07Load(tpath string, pparams []c07Param, ops map[string]any, docSec [][]string) (*openapi3.T, error) {
 	pathItem := map[string]any{}
 	for m, op := range ops {
 		pathItem[m] = op
@@ -148,7 +158,7 @@ func c07Load(pparams []c07Param, ops map[string]any, docSec [][]string) (*openap
 	}
 	doc := map[string]any{"openapi": "3.0.3", "info": map[string]any{"title": "t", "version": "1"},
 		"components": map[string]any{"securitySchemes": schemes},
-		"paths":      map[string]any{"/t": pathItem}}
+		"paths":      map[string]any{tpath: pathItem}}
 	if len(docSec) > 0 {
 		doc["security"] = c07Sec(docSec)
 	}
@@ -196,6 +206,20 @@ func c07Run(c *Case) []any {
 	if _, ok := raw["hist"]; !ok {
 		raw["hist"] = []any{}
 	}
+	// a parameter in the path makes the path a template; the request then carries the value as a segment
+	tpath, rpath := "/t", "/t"
+	for _, ps := range [][]c07Param{tc.PParams, tc.OParams} {
+		for _, p := range ps {
+			if p.In == "path" {
+				tpath = "/t/{" + p.Name + "}"
+			}
+		}
+	}
+	for _, v := range tc.Values {
+		if v.In == "path" {
+			rpath = "/t/" + v.Text
+		}
+	}
 	ops := map[string]any{"post": c07Op(tc.OParams, tc.OpSec, tc.BDecl)}
 	stepMethod := map[int]string{}
 	for i, s := range tc.Hist {
@@ -205,7 +229,7 @@ func c07Run(c *Case) []any {
 			ops[m] = c07Op(s.OParams, s.OpSec, s.BDecl)
 		}
 	}
-	d, err := c07Load(tc.PParams, ops, tc.DocSec)
+	d, err := c07Load(tpath, tc.PParams, ops, tc.DocSec)
 	if err != nil {
 		line["doc"] = "error"
 		line["docErr"] = err.Error()
@@ -215,7 +239,7 @@ func c07Run(c *Case) []any {
 	views := map[int]*openapi3.T{}
 	for i, s := range tc.Hist {
 		if s.Via == "share" || s.Via == "edit" {
-			dv, err := c07Load(s.PParams, map[string]any{"post": c07Op(s.OParams, s.OpSec, s.BDecl)}, s.DocSec)
+			dv, err := c07Load(tpath, s.PParams, map[string]any{"post": c07Op(s.OParams, s.OpSec, s.BDecl)}, s.DocSec)
 			if err != nil {
 				line["doc"] = "error"
 				line["docErr"] = err.Error()
@@ -223,7 +247,7 @@ func c07Run(c *Case) []any {
 			}
 			views[i] = dv
 			if s.Via == "share" { // an alias path: another path item around the SAME Operation value
-				d.Paths.Set("/u"+strconv.Itoa(i), &openapi3.PathItem{Post: d.Paths.Value("/t").Post, Parameters: dv.Paths.Value("/t").Parameters})
+				d.Paths.Set("/u"+strconv.Itoa(i), &openapi3.PathItem{Post: d.Paths.Value(tpath).Post, Parameters: dv.Paths.Value(tpath).Parameters})
 			}
 		}
 	}
@@ -267,13 +291,16 @@ func c07Run(c *Case) []any {
 			req.Header.Set("Content-Type", ct)
 		}
 		for _, v := range tc.Values {
-			if v.In == "header" {
+			switch v.In {
+			case "header":
 				req.Header.Set(v.Name, v.Text)
+			case "cookie":
+				req.AddCookie(&http.Cookie{Name: v.Name, Value: v.Text})
 			}
 		}
 		return req
 	}
-	mkReq := func() *http.Request { return mkReqTo("POST", "/t") }
+	mkReq := func() *http.Request { return mkReqTo("POST", rpath) }
 	req := mkReq()
 	route, pp, err := router.FindRoute(req)
 	if err != nil {
@@ -290,15 +317,24 @@ func c07Run(c *Case) []any {
 	calls := []any{}
 	opts := &openapi3filter.Options{MultiError: tc.Multi, ExcludeRequestBody: tc.ExclBody, ExcludeRequestQueryParams: tc.ExclQuery,
 		AuthenticationFunc: func(_ context.Context, in *openapi3filter.AuthenticationInput) error {
-			calls = append(calls, in.SecuritySchemeName)
+			atom := strings.Join(append([]string{in.SecuritySchemeName}, in.Scopes...), "+")
+			calls = append(calls, atom)
 			if tc.AuthReadsBody && in.RequestValidationInput.Request.Body != nil {
 				io.ReadAll(in.RequestValidationInput.Request.Body)
 			}
-			if accepts[in.SecuritySchemeName] {
+			if accepts[atom] {
 				return nil
 			}
 			return errors.New("rejected")
 		}}
+	switch tc.Opts {
+	case "skipdefaults":
+		opts.SkipSettingDefaults = true
+	case "exclreadonly":
+		opts.ExcludeReadOnlyValidations = true
+	case "nil": // no Options value at all
+		opts = nil
+	}
 	input := &openapi3filter.RequestValidationInput{Request: req, PathParams: pp, Route: route, Options: opts}
 	var verr error
 	p, _ := guard(func() { verr = openapi3filter.ValidateRequest(context.Background(), input) })
@@ -312,7 +348,10 @@ func c07Run(c *Case) []any {
 		// history: the same document serves a validation of the same request with every exclusion option on, then the
 		// case again: the third answer is judged like the first, and the document must not have changed
 		before := docDigest(d)
-		other := *opts
+		var other openapi3filter.Options
+		if opts != nil {
+			other = *opts
+		}
 		other.ExcludeRequestBody, other.ExcludeRequestQueryParams, other.MultiError = true, true, !tc.Multi
 		guard(func() {
 			openapi3filter.ValidateRequest(context.Background(), &openapi3filter.RequestValidationInput{Request: mkReq(), PathParams: pp, Route: route, Options: &other})
@@ -334,14 +373,14 @@ func c07Run(c *Case) []any {
 		dsec openapi3.SecurityRequirements
 	}{route.PathItem.Parameters, route.Operation.Parameters, route.Operation.Security, route.Operation.RequestBody, d.Security}
 	for i, s := range tc.Hist {
-		method, path := "POST", "/t"
+		method, path := "POST", rpath
 		switch s.Via {
 		case "share":
 			path = "/u" + strconv.Itoa(i)
 		case "sibling":
 			method = strings.ToUpper(stepMethod[i])
 		case "edit": // the document is edited in place: the parts of the loaded view document are installed
-			vpi := views[i].Paths.Value("/t")
+			vpi := views[i].Paths.Value(tpath)
 			route.PathItem.Parameters = vpi.Parameters
 			route.Operation.Parameters = vpi.Post.Parameters
 			route.Operation.Security = vpi.Post.Security
